@@ -429,6 +429,10 @@ def run(prog, rep, tier):
     rep.floor('FORM-isometry', 8)
     rep.assumptions += ['nothing about the represented vector, Schmidt values or entropies is '
                         'decided']
+    from ..flow import check_dead_computations
+    rep.rule('VALUE-dead', 'no result of a call is bound to a local that is never read (reaching '
+             'definitions)')
+    check_dead_computations(prog, rep, ['tenpy/networks/mps.py'])
     return rep.finish(
         level='other',
         explanation='Canonical-form bookkeeping decided on direct flows: %d set_B sites whose '
